@@ -1,17 +1,23 @@
-// translators/dvfib — regenerates coq/DvFib/GenConsts.v from the Go sources of the repository under test.
-// Standard library only (go/parser, go/ast). Usage: go run main.go <repo> > GenConsts.v
+// translators/dvfib — structural (AST) reading of the two snapshot-threshold tests of the DV prefix log, cross-checked
+// against behavioural probes. Standard library only. Usage: go run main.go <repo> [<probe file>]
 //
-// Translated:
-//   dv/config/config.go      const CostInfinity, NlsrOrigin                         -> cost_infinity, nlsr_origin
-//   dv/table/prefix_table.go  publishOp: the condition guarding pt.publishSnap()      -> pub_snap_test snapshotAt seq
-//   dv/dv/prefix_sync.go      prefixDataFetch: the expression assigned to isSnap     -> fetch_snap_test latest known,
-//                                                                                       fetch_threshold (its literal)
-// Conditions are translated structurally: uint64 `-` becomes u64_sub (wraps modulo 2^64), `+` u64-wrapping add,
-// comparisons become N comparisons, integer literals stay. Anything outside this grammar aborts the translation
-// (the check then reports that the obligation no longer holds for the code as written).
+// Nothing here depends on local identifier names, declaration style, or on literals vs named constants:
+//   publisher test : in dv/table, the method that calls IncrSeqNo (an API of std/sync); in it the only `if` without else
+//                    whose condition is a comparison containing a subtraction. Leaves: the variable assigned from
+//                    IncrSeqNo (and selectors ending in .Latest/.Known) = seq; the single other non-constant leaf =
+//                    snapshotAt. Integer leaves: literals or constants of the package / of dv/config.
+//   fetcher test   : in dv/dv, the comparison that contains a subtraction of two selectors with fields Latest / Known.
+// Output (one item per line, consumed by checks/C19.py):
+//   pub_coq <Coq expr over snapshotAt seq> | pub_fail <why>      pub_src <Go text>      pub_probe agree|disagree <n>
+//   fetch_coq <Coq expr over latest known> | fetch_fail <why>    fetch_src <Go text>    fetch_probe agree|disagree <n>
+//   fetch_lit <the integer of the fetch test>
+// When a probe file is given, the located expressions are evaluated with uint64 semantics on every probe point and
+// compared with what the implementation did. A failure to locate an item is NOT an error (exit 0): the check then
+// derives the item from the probes or keeps the committed value.
 package main
 
 import (
+	"bufio"
 	"fmt"
 	"go/ast"
 	"go/parser"
@@ -19,82 +25,144 @@ import (
 	"go/token"
 	"os"
 	"path/filepath"
+	"strconv"
 	"strings"
 )
 
-func die(f string, a ...any) {
-	fmt.Fprintf(os.Stderr, "dvfib translator: "+f+"\n", a...)
-	os.Exit(1)
-}
+var fset = token.NewFileSet()
 
-func parse(fset *token.FileSet, path string) *ast.File {
-	f, err := parser.ParseFile(fset, path, nil, parser.ParseComments)
-	if err != nil {
-		die("%v", err)
-	}
-	return f
-}
-
-func src(fset *token.FileSet, n ast.Node) string {
+func src(n ast.Node) string {
 	var b strings.Builder
 	printer.Fprint(&b, fset, n)
-	return b.String()
+	return strings.Join(strings.Fields(b.String()), " ")
 }
 
-// constant of the form  const X = uint64(N)  or  const X = N
-func constVal(f *ast.File, name string) string {
-	for _, d := range f.Decls {
-		gd, ok := d.(*ast.GenDecl)
-		if !ok || gd.Tok != token.CONST {
-			continue
+func parseDir(dir string) []*ast.File {
+	pkgs, err := parser.ParseDir(fset, dir, func(fi os.FileInfo) bool {
+		return !strings.HasSuffix(fi.Name(), "_test.go") && !strings.HasPrefix(fi.Name(), "zz_")
+	}, 0)
+	if err != nil {
+		return nil
+	}
+	var fs []*ast.File
+	for _, p := range pkgs {
+		for _, f := range p.Files {
+			fs = append(fs, f)
 		}
-		for _, s := range gd.Specs {
-			vs := s.(*ast.ValueSpec)
-			for i, id := range vs.Names {
-				if id.Name != name || i >= len(vs.Values) {
+	}
+	return fs
+}
+
+// integer constants declared in the given files: name -> value (literal, or uint64(literal) style conversions)
+func consts(files []*ast.File, prefix string, into map[string]uint64) {
+	for _, f := range files {
+		for _, d := range f.Decls {
+			gd, ok := d.(*ast.GenDecl)
+			if !ok || (gd.Tok != token.CONST && gd.Tok != token.VAR) {
+				continue
+			}
+			for _, s := range gd.Specs {
+				vs, ok := s.(*ast.ValueSpec)
+				if !ok {
 					continue
 				}
-				v := vs.Values[i]
-				if c, ok := v.(*ast.CallExpr); ok && len(c.Args) == 1 {
-					v = c.Args[0]
+				for i, id := range vs.Names {
+					if i >= len(vs.Values) || gd.Tok == token.VAR {
+						continue
+					}
+					v := vs.Values[i]
+					for {
+						if c, ok := v.(*ast.CallExpr); ok && len(c.Args) == 1 {
+							v = c.Args[0]
+						} else if p, ok := v.(*ast.ParenExpr); ok {
+							v = p.X
+						} else {
+							break
+						}
+					}
+					if lit, ok := v.(*ast.BasicLit); ok && lit.Kind == token.INT {
+						if n, err := strconv.ParseUint(strings.ReplaceAll(lit.Value, "_", ""), 0, 64); err == nil {
+							into[prefix+id.Name] = n
+						}
+					}
 				}
-				if lit, ok := v.(*ast.BasicLit); ok && lit.Kind == token.INT {
-					return lit.Value
-				}
-				die("constant %s is not an integer literal", name)
 			}
 		}
 	}
-	die("constant %s not found", name)
-	return ""
 }
 
-func findFunc(f *ast.File, name string) *ast.FuncDecl {
-	for _, d := range f.Decls {
-		if fd, ok := d.(*ast.FuncDecl); ok && fd.Name.Name == name {
-			return fd
+func callsMethod(n ast.Node, method string) bool {
+	found := false
+	ast.Inspect(n, func(m ast.Node) bool {
+		if c, ok := m.(*ast.CallExpr); ok {
+			if s, ok := c.Fun.(*ast.SelectorExpr); ok && s.Sel.Name == method {
+				found = true
+			}
 		}
-	}
-	die("function %s not found", name)
-	return nil
+		return true
+	})
+	return found
 }
 
-// expression translation; vars maps Go source text of leaves to Coq variable names
-func tr(fset *token.FileSet, e ast.Expr, vars map[string]string) string {
-	switch x := e.(type) {
-	case *ast.ParenExpr:
-		return tr(fset, x.X, vars)
+func hasSub(e ast.Expr) bool {
+	found := false
+	ast.Inspect(e, func(m ast.Node) bool {
+		if b, ok := m.(*ast.BinaryExpr); ok && b.Op == token.SUB {
+			found = true
+		}
+		return true
+	})
+	return found
+}
+
+func isCmp(op token.Token) bool {
+	return op == token.GEQ || op == token.GTR || op == token.LEQ || op == token.LSS
+}
+
+type leafFn func(e ast.Expr) (string, bool) // Coq variable name for a non-constant leaf
+
+// tr translates an expression to Coq; ev evaluates it with uint64 semantics under env
+type xl struct {
+	leaf leafFn
+	cs   map[string]uint64
+	err  string
+}
+
+func (x *xl) constOf(e ast.Expr) (uint64, bool) {
+	switch v := e.(type) {
 	case *ast.BasicLit:
-		if x.Kind == token.INT {
-			return x.Value
+		if v.Kind == token.INT {
+			n, err := strconv.ParseUint(strings.ReplaceAll(v.Value, "_", ""), 0, 64)
+			return n, err == nil
 		}
-	case *ast.Ident, *ast.SelectorExpr:
-		if v, ok := vars[src(fset, e)]; ok {
-			return v
+	case *ast.Ident:
+		n, ok := x.cs[v.Name]
+		return n, ok
+	case *ast.SelectorExpr:
+		if id, ok := v.X.(*ast.Ident); ok {
+			n, ok := x.cs[id.Name+"."+v.Sel.Name]
+			return n, ok
 		}
+	case *ast.CallExpr: // uint64(100)
+		if len(v.Args) == 1 {
+			return x.constOf(v.Args[0])
+		}
+	case *ast.ParenExpr:
+		return x.constOf(v.X)
+	}
+	return 0, false
+}
+
+func (x *xl) tr(e ast.Expr) string {
+	if n, ok := x.constOf(e); ok {
+		return strconv.FormatUint(n, 10)
+	}
+	switch v := e.(type) {
+	case *ast.ParenExpr:
+		return x.tr(v.X)
 	case *ast.BinaryExpr:
-		a, b := tr(fset, x.X, vars), tr(fset, x.Y, vars)
-		switch x.Op {
+		a, b := x.tr(v.X), x.tr(v.Y)
+		switch v.Op {
 		case token.SUB:
 			return fmt.Sprintf("(u64_sub %s %s)", a, b)
 		case token.ADD:
@@ -113,109 +181,255 @@ func tr(fset *token.FileSet, e ast.Expr, vars map[string]string) string {
 			return fmt.Sprintf("(%s || %s)", a, b)
 		}
 	}
-	die("cannot translate expression %q", src(fset, e))
+	if name, ok := x.leaf(e); ok {
+		return name
+	}
+	if x.err == "" {
+		x.err = "cannot translate " + src(e)
+	}
+	return "?"
+}
+
+func (x *xl) ev(e ast.Expr, env map[string]uint64) uint64 {
+	if n, ok := x.constOf(e); ok {
+		return n
+	}
+	b2u := func(b bool) uint64 {
+		if b {
+			return 1
+		}
+		return 0
+	}
+	switch v := e.(type) {
+	case *ast.ParenExpr:
+		return x.ev(v.X, env)
+	case *ast.BinaryExpr:
+		a, b := x.ev(v.X, env), x.ev(v.Y, env)
+		switch v.Op {
+		case token.SUB:
+			return a - b
+		case token.ADD:
+			return a + b
+		case token.GEQ:
+			return b2u(a >= b)
+		case token.GTR:
+			return b2u(a > b)
+		case token.LEQ:
+			return b2u(a <= b)
+		case token.LSS:
+			return b2u(a < b)
+		case token.LAND:
+			return b2u(a != 0 && b != 0)
+		case token.LOR:
+			return b2u(a != 0 || b != 0)
+		}
+	}
+	if name, ok := x.leaf(e); ok {
+		return env[name]
+	}
+	return 0
+}
+
+func selField(e ast.Expr) string {
+	if s, ok := e.(*ast.SelectorExpr); ok {
+		return s.Sel.Name
+	}
 	return ""
 }
 
-func callsMethod(n ast.Node, method string) bool {
-	found := false
-	ast.Inspect(n, func(m ast.Node) bool {
-		if c, ok := m.(*ast.CallExpr); ok {
-			if s, ok := c.Fun.(*ast.SelectorExpr); ok && s.Sel.Name == method {
-				found = true
-			}
+type probe struct {
+	kind string
+	a, b uint64
+	res  int
+}
+
+func readProbes(path string) []probe {
+	var ps []probe
+	f, err := os.Open(path)
+	if err != nil {
+		return nil
+	}
+	defer f.Close()
+	sc := bufio.NewScanner(f)
+	for sc.Scan() {
+		fl := strings.Fields(sc.Text())
+		if len(fl) == 4 && (fl[0] == "pub" || fl[0] == "fetch") {
+			a, _ := strconv.ParseUint(fl[1], 10, 64)
+			b, _ := strconv.ParseUint(fl[2], 10, 64)
+			r, _ := strconv.Atoi(fl[3])
+			ps = append(ps, probe{fl[0], a, b, r})
 		}
-		return true
-	})
-	return found
+	}
+	return ps
 }
 
 func main() {
 	if len(os.Args) < 2 {
-		die("usage: main <repo>")
+		fmt.Println("usage: main <repo> [<probe file>]")
+		os.Exit(2)
 	}
 	repo := os.Args[1]
-	fset := token.NewFileSet()
-	cfg := parse(fset, filepath.Join(repo, "dv/config/config.go"))
-	pt := parse(fset, filepath.Join(repo, "dv/table/prefix_table.go"))
-	ps := parse(fset, filepath.Join(repo, "dv/dv/prefix_sync.go"))
+	var probes []probe
+	if len(os.Args) > 2 {
+		probes = readProbes(os.Args[2])
+	}
+	tableFiles := parseDir(filepath.Join(repo, "dv/table"))
+	dvFiles := parseDir(filepath.Join(repo, "dv/dv"))
+	cfgFiles := parseDir(filepath.Join(repo, "dv/config"))
+	csTable, csDv := map[string]uint64{}, map[string]uint64{}
+	consts(cfgFiles, "config.", csTable)
+	consts(cfgFiles, "config.", csDv)
+	consts(tableFiles, "", csTable)
+	consts(tableFiles, "table.", csDv)
+	consts(dvFiles, "", csDv)
 
-	inf := constVal(cfg, "CostInfinity")
-	origin := constVal(cfg, "NlsrOrigin")
-
-	// publishOp: exactly one `if <cond> { ... pt.publishSnap() ... }` without else; the sequence number variable is
-	// the one assigned from IncrSeqNo.
-	var pubCond ast.Expr
-	seqVar := ""
-	po := findFunc(pt, "publishOp")
-	ast.Inspect(po.Body, func(n ast.Node) bool {
-		switch x := n.(type) {
-		case *ast.AssignStmt:
-			if len(x.Lhs) == 1 && len(x.Rhs) == 1 && callsMethod(x.Rhs[0], "IncrSeqNo") {
-				seqVar = src(fset, x.Lhs[0])
-			}
-		case *ast.IfStmt:
-			if callsMethod(x.Body, "publishSnap") {
-				if pubCond != nil || x.Else != nil || x.Init != nil {
-					die("publishOp: unexpected shape of the snapshot test")
+	// ---- publisher ----
+	func() {
+		var cond ast.Expr
+		var seqVar string
+		n := 0
+		for _, f := range tableFiles {
+			for _, d := range f.Decls {
+				fd, ok := d.(*ast.FuncDecl)
+				if !ok || fd.Body == nil || !callsMethod(fd.Body, "IncrSeqNo") {
+					continue
 				}
-				pubCond = x.Cond
+				ast.Inspect(fd.Body, func(m ast.Node) bool {
+					switch v := m.(type) {
+					case *ast.AssignStmt:
+						if len(v.Lhs) == 1 && len(v.Rhs) == 1 && callsMethod(v.Rhs[0], "IncrSeqNo") {
+							seqVar = src(v.Lhs[0])
+						}
+					case *ast.ValueSpec:
+						if len(v.Names) == 1 && len(v.Values) == 1 && callsMethod(v.Values[0], "IncrSeqNo") {
+							seqVar = v.Names[0].Name
+						}
+					case *ast.IfStmt:
+						if b, ok := v.Cond.(*ast.BinaryExpr); ok && v.Else == nil && v.Init == nil && isCmp(b.Op) && hasSub(b) {
+							cond = v.Cond
+							n++
+						}
+					}
+					return true
+				})
 			}
 		}
-		return true
-	})
-	if pubCond == nil || seqVar == "" {
-		die("publishOp: snapshot test or sequence variable not found")
-	}
-	pubSrc := src(fset, pubCond)
-	pubCoq := tr(fset, pubCond, map[string]string{"pt.snapshotAt": "snapshotAt", seqVar: "seq", "pt.me.Latest": "seq", "pt.me.Known": "seq"})
-
-	// prefixDataFetch: isSnap := <expr>
-	var fetchExpr ast.Expr
-	pf := findFunc(ps, "prefixDataFetch")
-	ast.Inspect(pf.Body, func(n ast.Node) bool {
-		if a, ok := n.(*ast.AssignStmt); ok && len(a.Lhs) == 1 && len(a.Rhs) == 1 && src(fset, a.Lhs[0]) == "isSnap" {
-			if fetchExpr != nil {
-				die("prefixDataFetch: isSnap assigned twice")
-			}
-			fetchExpr = a.Rhs[0]
+		if cond == nil || n != 1 || seqVar == "" {
+			fmt.Printf("pub_fail the snapshot test was not located structurally (candidates: %d, sequence variable %q)\n", n, seqVar)
+			return
 		}
-		return true
-	})
-	if fetchExpr == nil {
-		die("prefixDataFetch: isSnap assignment not found")
-	}
-	// the numeric threshold of the fetch rule: the only integer literal of that expression
-	fetchThr := ""
-	ast.Inspect(fetchExpr, func(n ast.Node) bool {
-		if l, ok := n.(*ast.BasicLit); ok && l.Kind == token.INT {
-			if fetchThr != "" {
-				die("prefixDataFetch: more than one integer literal in the isSnap expression")
+		other := ""
+		x := &xl{cs: csTable}
+		x.leaf = func(e ast.Expr) (string, bool) {
+			s := src(e)
+			if s == seqVar || selField(e) == "Latest" || selField(e) == "Known" {
+				return "seq", true
 			}
-			fetchThr = l.Value
+			switch e.(type) {
+			case *ast.Ident, *ast.SelectorExpr:
+				if other == "" || other == s {
+					other = s
+					return "snapshotAt", true
+				}
+			}
+			return "", false
 		}
-		return true
-	})
-	if fetchThr == "" {
-		die("prefixDataFetch: no integer literal in the isSnap expression")
-	}
-	fetchSrc := src(fset, fetchExpr)
-	fetchCoq := tr(fset, fetchExpr, map[string]string{"router.Latest": "latest", "router.Known": "known"})
+		coq := x.tr(cond)
+		if x.err != "" {
+			fmt.Printf("pub_fail %s\n", x.err)
+			return
+		}
+		fmt.Printf("pub_src %s\n", src(cond))
+		fmt.Printf("pub_coq %s\n", coq)
+		if probes != nil {
+			bad, tot := 0, 0
+			for _, p := range probes {
+				if p.kind != "pub" || p.res < 0 {
+					continue
+				}
+				tot++
+				if int(x.ev(cond, map[string]uint64{"snapshotAt": p.a, "seq": p.b})) != p.res {
+					bad++
+				}
+			}
+			if bad == 0 {
+				fmt.Printf("pub_probe agree %d\n", tot)
+			} else {
+				fmt.Printf("pub_probe disagree %d\n", bad)
+			}
+		}
+	}()
 
-	fmt.Printf(`(* DvFib/GenConsts.v — GENERATED by translators/dvfib from the Go sources on every run; do not edit by hand.
-   source: dv/config/config.go, dv/table/prefix_table.go (publishOp), dv/dv/prefix_sync.go (prefixDataFetch) *)
-From DvFib Require Import U64.
-Open Scope N_scope.
-
-(* dv/config/config.go: CostInfinity *)
-Definition cost_infinity : N := %s.
-(* dv/config/config.go: NlsrOrigin *)
-Definition nlsr_origin : N := %s.
-(* dv/table/prefix_table.go publishOp: if %s { pt.publishSnap() } *)
-Definition pub_snap_test (snapshotAt seq : N) : bool := %s.
-(* dv/dv/prefix_sync.go prefixDataFetch: isSnap := %s *)
-Definition fetch_snap_test (latest known : N) : bool := %s.
-(* the integer literal of that expression *)
-Definition fetch_threshold : N := %s.
-`, inf, origin, pubSrc, pubCoq, fetchSrc, fetchCoq, fetchThr)
+	// ---- fetcher ----
+	func() {
+		var cond *ast.BinaryExpr
+		n := 0
+		for _, f := range dvFiles {
+			ast.Inspect(f, func(m ast.Node) bool {
+				b, ok := m.(*ast.BinaryExpr)
+				if !ok || !isCmp(b.Op) {
+					return true
+				}
+				var fields []string
+				ast.Inspect(b, func(k ast.Node) bool {
+					if s, ok := k.(*ast.BinaryExpr); ok && s.Op == token.SUB {
+						fields = append(fields, selField(s.X), selField(s.Y))
+					}
+					return true
+				})
+				got := strings.Join(fields, ",")
+				if got == "Latest,Known" || got == "Known,Latest" {
+					cond = b
+					n++
+					return false
+				}
+				return true
+			})
+		}
+		if cond == nil || n != 1 {
+			fmt.Printf("fetch_fail the fetch test was not located structurally (candidates: %d)\n", n)
+			return
+		}
+		x := &xl{cs: csDv}
+		x.leaf = func(e ast.Expr) (string, bool) {
+			switch selField(e) {
+			case "Latest":
+				return "latest", true
+			case "Known":
+				return "known", true
+			}
+			return "", false
+		}
+		coq := x.tr(cond)
+		if x.err != "" {
+			fmt.Printf("fetch_fail %s\n", x.err)
+			return
+		}
+		fmt.Printf("fetch_src %s\n", src(cond))
+		fmt.Printf("fetch_coq %s\n", coq)
+		// the integer of the test: the operand that is a constant
+		for _, side := range []ast.Expr{cond.X, cond.Y} {
+			if v, ok := x.constOf(side); ok {
+				fmt.Printf("fetch_lit %d\n", v)
+			}
+		}
+		fmt.Printf("fetch_op %s\n", cond.Op.String())
+		if probes != nil {
+			bad, tot := 0, 0
+			for _, p := range probes {
+				if p.kind != "fetch" || p.res < 0 {
+					continue
+				}
+				tot++
+				if int(x.ev(cond, map[string]uint64{"latest": p.a, "known": p.b})) != p.res {
+					bad++
+				}
+			}
+			if bad == 0 {
+				fmt.Printf("fetch_probe agree %d\n", tot)
+			} else {
+				fmt.Printf("fetch_probe disagree %d\n", bad)
+			}
+		}
+	}()
 }
